@@ -58,6 +58,58 @@ class Tracer:
             out[("Fault", str(idx), "uf")] = float(flt.uf.v[i])
         return out
 
+    def observe_limits(self):
+        """At a stored instant: every anti-windup limited state lies within its limits (10*tol), a pegged state has
+        zero right-hand side, and the flags of every comparison / anti-windup limiter are one-hot."""
+        ss = self.ss
+        tol = 10 * float(ss.TDS.config.tol)
+        st = self.__dict__.setdefault("_lim", dict(within=True, pegged_zero=True, onehot=True, n_aw=0, active_steps=0, worst=""))
+        from andes.core.discrete import AntiWindup, Limiter
+        act = False
+        for mdl in ss.exist.tds.values():
+            if mdl.n == 0:
+                continue
+            for name, d in mdl.discrete.items():
+                if not isinstance(d, Limiter) or not getattr(d, "enable", True):
+                    continue
+                zu = np.asarray(d.zu) if not d.no_upper else np.zeros(mdl.n)
+                zl = np.asarray(d.zl) if not d.no_lower else np.zeros(mdl.n)
+                zi = np.asarray(d.zi)
+                if len(zi) != mdl.n:
+                    continue
+                zu = zu if len(zu) == mdl.n else np.zeros(mdl.n)
+                zl = zl if len(zl) == mdl.n else np.zeros(mdl.n)
+                if not np.all(zu + zl + zi == 1):
+                    # lower = upper is a degenerate pair (known finding); anything else is not one-hot
+                    lo = np.asarray(d.lower.v) * (d.sign_lower.v if hasattr(d.sign_lower, "v") else 1)
+                    hi = np.asarray(d.upper.v) * (d.sign_upper.v if hasattr(d.sign_upper, "v") else 1)
+                    if not np.all((zu + zl + zi == 1) | (lo >= hi)):
+                        st["onehot"] = False
+                        st["worst"] = "%s.%s flags" % (mdl.class_name, name)
+                if isinstance(d, AntiWindup):
+                    st["n_aw"] += 1
+                    x = np.asarray(d.state.v)
+                    hi = -np.asarray(d.upper.v) if d.sign_upper.v == -1 else np.asarray(d.upper.v)
+                    lo = -np.asarray(d.lower.v) if d.sign_lower.v == -1 else np.asarray(d.lower.v)
+                    ok = np.ones(mdl.n, dtype=bool)
+                    if not d.no_upper:
+                        ok &= x <= hi + tol * (1 + np.abs(hi))
+                    if not d.no_lower:
+                        ok &= x >= lo - tol * (1 + np.abs(lo))
+                    ok |= lo > hi
+                    if not np.all(ok):
+                        st["within"] = False
+                        st["worst"] = "%s.%s state outside limits" % (mdl.class_name, name)
+                    peg = zi == 0
+                    if np.any(peg):
+                        act = True
+                        f = np.asarray(ss.dae.f)[np.asarray(d.state.a)[peg]]
+                        if not np.all(f == 0):
+                            st["pegged_zero"] = False
+                            st["worst"] = "%s.%s pegged state with non-zero derivative" % (mdl.class_name, name)
+        if act:
+            st["active_steps"] += 1
+
     def alter_values(self):
         """Current value of the field each Alter device points to (None if it cannot be read)."""
         ss = self.ss
@@ -208,6 +260,8 @@ class Tracer:
             return r
 
         def w_store():
+            if T.sc.get("watch_limits"):
+                T.observe_limits()
             r = o_store()
             t = _f(dae.t)
             rid = len(T.rows)
@@ -405,6 +459,9 @@ def run_scenario(sc):
         tr.run_segment(tf, k + 1)
         if sc.get("snapshot") and k + 1 < len(sc["segs"]):
             ss = _snapshot_roundtrip(tr, sc)
+    if sc.get("watch_limits"):
+        st = tr.__dict__.get("_lim", dict(within=True, pegged_zero=True, onehot=True, n_aw=0, active_steps=0, worst=""))
+        tr.ev.append(dict(e="limits", **st))
     if sc.get("compare_single") and len(sc["segs"]) >= 1:
         tr.ev.append(_compare_single(sc, tr, ss))
     out = dict(sid=sc.get("sid"), pflow=bool(pf), events=tr.ev, timers=tr.timers,
@@ -597,6 +654,9 @@ def encode_trace(res, tid, sc):
                             tf=R(e["tf"]), t_eq_tf=bool(e["t"] == e["tf"]), busted=e["busted"],
                             exit_delta=e["exit_delta"], nan_state=e["nan_state"], mem=e["mem"], ts_mono=bool(mono),
                             status=status))
+        elif k == "limits":
+            out.append(dict(e=k, within=e["within"], pegged_zero=e["pegged_zero"], onehot=e["onehot"],
+                            active_steps=e["active_steps"]))
         elif k == "compare":
             out.append(dict(e=k, both_ok=e["both_ok"], final_close=e["final_close"], fired_same=e["fired_same"],
                             status_same=e["status_same"], axis_has_events=e["axis_has_events"],
